@@ -10,7 +10,7 @@ from .common import tolist, exceeds
 LEAN = "PystogVerif.Props.C18"
 # theorems about the code generated from stog.py / cli.py by tools/translate_stog.py (built when these methods translate)
 LEAN_GEN = "PystogVerif.Props.C18Gen"
-STOG_METHODS = ['write_out_merged_sq', 'write_out_merged_gr', 'write_out_ft', 'write_out_ft_sq', 'write_out_ft_gr', 'write_out_lorched_gr', 'write_out_rmc_fq', 'write_out_rmc_gr']
+STOG_METHODS = ['write_out_merged_sq', 'write_out_merged_gr', 'write_out_ft', 'write_out_ft_sq', 'write_out_ft_gr', 'write_out_lorched_gr', 'write_out_rmc_fq', 'write_out_rmc_gr', '_write_out_to_file']
 ENTRIES = []
 RULE = ("one of the 8 writers (default or explicit file name, random stem), curve length 0-300, magnitudes 1e-14..1e6 of both signs, "
         "-0.0, tiny negatives that round to -0.000000000000, half-way cases k+0.5 ulp of 1e-12; a second kind of case writes a merged "
@@ -187,7 +187,8 @@ def nontrivial(c):
 def correspond(seed, tier):
     n = 60 if tier == "quick" else 600
     lines, expect, cases = [], {}, {}
-    dist = {"writers": {}, "rows": 0}
+    dist = {"writers": {}, "rows": 0, "generated_code_twins": 0}
+    twin = "GenStog.fileText" in proto.gen_entries()   # the text function regenerated from _write_out_to_file, at the same inputs
     for i in range(n):
         c = gen(rng_for(seed, "corr18", i), i, tier)
         m = min(len(c["x"]), len(c["y"]))
@@ -208,6 +209,10 @@ def correspond(seed, tier):
         lines.append(proto.request(rid + "r", "Model.readBack", {}, [x, y]))
         expect[rid] = raw
         cases[rid] = (x, y)
+        if twin:
+            lines.append(proto.request("g" + rid, "GenStog.fileText", {}, [x, y]))
+            expect["g" + rid] = raw
+            dist["generated_code_twins"] += 1
         dist["writers"][c["writer"]] = dist["writers"].get(c["writer"], 0) + 1
         dist["rows"] += m
     res = proto.run_model(lines)
@@ -222,6 +227,8 @@ def correspond(seed, tier):
             k = next((j for j, (a, b) in enumerate(zip(model_bytes, raw)) if a != b), min(len(model_bytes), len(raw)))
             dis.append(dict(id=rid, kind="bytes", at=k, impl=raw[max(0, k - 20):k + 20].decode(errors="replace"),
                             model=model_bytes[max(0, k - 20):k + 20].decode(errors="replace")))
+            continue
+        if rid.startswith("g"):
             continue
         # the model's reader returns, exactly, round-half-even(|v| 1e12) for every written number
         st, out = res.get(rid + "r", ("err", "no-response"))
@@ -238,4 +245,4 @@ def correspond(seed, tier):
                     break
     return dict(evaluations=len(expect), disagreements=dis, worst_ratio=0.0, distribution=dist, samples=[], cases={})
 
-DRIVERS = ["drvp"]
+DRIVERS = ["drvp"]   # plus drvs (generated code), built by the check when the writers translate
